@@ -919,8 +919,11 @@ zone's origin -/
 def zoneFromText (text : List Nat) (origin : Option Name) (rel chk : Bool) (gfix : Bool := false) :
     RM (ZoneMap × Option Name) := do
   let (r, z) ← (PState.init text origin rel gfix).read
-  if chk then checkOrigin z r.zoneOrigin rel
-  pure (z, r.zoneOrigin)
+  -- `_end_transaction` commits (and with it hands the origin learnt from `$ORIGIN` to the zone) only when the
+  -- version changed, i.e. when at least one record was added; otherwise the zone keeps the origin it was given
+  let zorigin := if z.isEmpty then origin else r.zoneOrigin
+  if chk then checkOrigin z zorigin rel
+  pure (z, zorigin)
 
 /-! ## writer -/
 
